@@ -82,6 +82,8 @@ type Contract struct {
 	Reveal   map[string]bool
 	MayPanic bool
 	NoSafety bool
+	Uninterp bool // spec function treated as an uninterpreted function of its arguments
+	NoOverflow bool // math mode: arithmetic of this function is assumed not to overflow (recorded as an assumption)
 	Lemma    bool
 	Line     int
 	File     string
@@ -307,8 +309,8 @@ func (p *Program) bind(c *Contract) error {
 	for _, rc := range raw {
 		switch rc.kind {
 		case "ints":
-			if rc.text != "bv" && rc.text != "math" {
-				return fmt.Errorf("%s:%d: ints bv|math", c.File, rc.line)
+			if rc.text != "bv" && rc.text != "math" && rc.text != "both" {
+				return fmt.Errorf("%s:%d: ints bv|math|both", c.File, rc.line)
 			}
 			c.Ints = rc.text
 		case "props":
@@ -334,6 +336,11 @@ func (p *Program) bind(c *Contract) error {
 			c.MayPanic = true
 		case "nosafety":
 			c.NoSafety = true
+		case "nooverflow":
+			c.NoOverflow = true
+		case "uninterpreted":
+			c.Uninterp = true
+			c.Assumed = "uninterpreted ghost function: " + rc.text
 		case "timeout":
 			c.Timeout, _ = strconv.Atoi(rc.text)
 		case "enumerate":
@@ -575,7 +582,7 @@ func (p *Program) bindClauseTyped(c *Contract, rc rawClause, pos token.Pos, sig 
 	}
 	info := &types.Info{Types: map[ast.Expr]types.TypeAndValue{}, Uses: map[*ast.Ident]types.Object{}, Defs: map[*ast.Ident]types.Object{},
 		Selections: map[*ast.SelectorExpr]*types.Selection{}, Implicits: map[ast.Node]types.Object{}}
-	cpos := p.contractFilePos(c.Pkg)
+	cpos := p.contractFilePosIn(c.Pkg, c.File)
 	if err := types.CheckExpr(p.Fset, c.Pkg.Types, cpos, expr, info); err != nil {
 		return nil, &BindError{fmt.Sprintf("%s:%d: clause does not type-check in %s: %v [%s]", c.File, rc.line, c.Key, err, rc.text)}
 	}
@@ -776,17 +783,16 @@ func (p *Program) constArrayInit(v *types.Var) ([]*big.Int, bool) {
 					if s.Op == token.AND && isV(s.X) {
 						assigned = true
 					}
-				case *ast.SliceExpr:
-					if isV(s.X) {
-						assigned = true // a slice of the array may be written through
-					}
 				}
 				return true
 			})
 		}
 	}
-	if lit == nil || assigned {
+	if assigned {
 		return nil, false
+	}
+	if lit == nil {
+		return nil, true // no initialiser: all elements are zero
 	}
 	var out []*big.Int
 	for _, el := range lit.Elts {
@@ -805,4 +811,13 @@ func (p *Program) constArrayInit(v *types.Var) ([]*big.Int, bool) {
 		out = append(out, bi)
 	}
 	return out, true
+}
+
+func (p *Program) contractFilePosIn(pkg *packages.Package, file string) token.Pos {
+	for i, f := range pkg.Syntax {
+		if pkg.CompiledGoFiles[i] == file {
+			return f.Name.End()
+		}
+	}
+	return p.contractFilePos(pkg)
 }
